@@ -68,7 +68,7 @@ func genC12(r *Rng, tier string, idx int) *Program {
 				if r.Chance(0.3) {
 					lv = 9
 				}
-				op = Op{Kind: "ls_compact", Level: lv}
+				op = Op{Kind: "ls_compact", N: int64(lv)}
 			case 7:
 				op = Op{Kind: "ls_snap_retention"}
 			case 8:
@@ -86,10 +86,88 @@ func genC12(r *Rng, tier string, idx int) *Program {
 			p.Ops = append(p.Ops, op)
 		}
 	}
-	for i := 0; i < 400; i++ {
+	// one compaction monitor per level, as in the daemon: every level belongs to
+	// one task, compactions of one level are never issued concurrently
+	owner := func(lv int) int {
+		if lv == 9 {
+			return nt
+		}
+		return 1 + (lv-1)%nt
+	}
+	for i := range p.Ops {
+		// (CONC programs: Op.Level is the task, Op.N the compaction level)
+		if op := &p.Ops[i]; op.Kind == "ls_compact" && owner(int(op.N)) != op.Level {
+			var mine []int
+			for _, lv := range []int{1, 2, 9} {
+				if (lv == 9 || lv <= len(p.Cfg.LevelMs)) && owner(lv) == op.Level {
+					mine = append(mine, lv)
+				}
+			}
+			if len(mine) == 0 {
+				*op = Op{Kind: "status", Level: op.Level}
+			} else {
+				op.N = int64(mine[r.Intn(len(mine))])
+			}
+		}
+	}
+	p.Params["level_owner"] = 1
+	p.Params["sticky"] = int64(r.Pick([]int{5, 2, 3}) * 400) // 0, 400, 800 per mille
+	// long delays: a task stays parked at one site (a slow remote call, a lock
+	// holder that is not scheduled) while the others run on
+	if r.Chance(0.5) {
+		sites := []string{"client:list:done", "client:list:done:L1", "client:list:done:L0", "client:write:done", "client:open:done", "client:list", "client:write", "client:",
+			"db:", "replica:", "snapshot:", "compact:", "ckpt:", "phase:", "sql:", ""}
+		for i := 0; i < r.Range(1, 2); i++ {
+			p.Holds = append(p.Holds, Hold{Task: r.Range(1, nt), Site: PickOf(r, sites), Nth: r.Range(1, 6), Len: r.Range(20, 150)})
+		}
+	}
+	if r.Chance(0.2) {
+		genC12ColdCache(r, p)
+	}
+	for i := 0; i < 400 || i < int(p.Params["max_steps"]); i++ {
 		p.Schedule = append(p.Schedule, r.Intn(1000))
 	}
 	return p
+}
+
+// genC12ColdCache: a restart (disable/enable: a cold per-level cache) while the
+// monitors of two levels run: the level-2 monitor looks up the newest level-1
+// file as its source while the level-1 monitor compacts, with transactions
+// arriving in between; afterwards level 1 is compacted again.
+func genC12ColdCache(r *Rng, p *Program) {
+	p.Variant = "cold-cache"
+	p.Cfg.LevelMs = []int64{2000, 9000}
+	p.Cfg.L0RetentionMs = 300000
+	p.Params["tasks"] = 3
+	p.Params["aux_dbs"] = 0
+	p.Params["sticky"] = 850
+	p.Params["max_steps"] = 2500
+	p.Ops = nil
+	for i := 0; i < r.Range(30, 45); i++ {
+		st := genTxn(r, &p.Cfg)
+		st.Rollback = false
+		p.Ops = append(p.Ops, Op{Kind: "app", Step: &st, Level: 0})
+	}
+	add := func(tk int, ops ...Op) {
+		for _, op := range ops {
+			op.Level = tk
+			p.Ops = append(p.Ops, op)
+		}
+	}
+	for i := 0; i < r.Range(8, 12); i++ { // level-1 monitor
+		add(1, Op{Kind: "ls_sync_wait"}, Op{Kind: "ls_compact", N: 1})
+	}
+	add(2, Op{Kind: "ls_sync_wait"}, Op{Kind: "ls_compact", N: 2}) // level-2 monitor, restarts
+	for i := 0; i < r.Range(2, 4); i++ {
+		add(2, Op{Kind: "disable"}, Op{Kind: "enable"}, Op{Kind: "ls_sync"}, Op{Kind: "ls_compact", N: 2})
+	}
+	for i := 0; i < r.Range(2, 5); i++ {
+		add(3, Op{Kind: PickOf(r, []string{"ls_sync_wait", "ls_sync", "ls_replica_sync", "status"})})
+	}
+	p.Holds = []Hold{{Task: 2, Site: "client:list:done:L1", Nth: r.Range(1, 5), Len: r.Range(30, 150)}}
+	if r.Chance(0.5) {
+		p.Holds = append(p.Holds, Hold{Task: r.Range(1, 2), Site: "client:", Nth: r.Range(1, 20), Len: r.Range(30, 150)})
+	}
 }
 
 // taskPanic classifies a panic that escaped from a task: if the innermost frames
@@ -275,6 +353,11 @@ func runC12Bubble(e *Env, p *Program, res *Result) {
 	sch := NewSched(p.Schedule)
 	sch.NoHB = true
 	sch.MaxSteps = 600
+	sch.Sticky = int(p.Params["sticky"])
+	sch.Holds = p.Holds
+	if ms := int(p.Params["max_steps"]); ms > 0 {
+		sch.MaxSteps = ms
+	}
 	sch.Advances = []time.Duration{time.Millisecond, time.Second, 10 * time.Second}
 	logs := make([]*concTaskLog, nt+1)
 	var extraDBs []*litestream.DB // created by register ops (appended by tasks; read after all tasks ended)
@@ -310,6 +393,9 @@ func runC12Bubble(e *Env, p *Program, res *Result) {
 					task.Yield("app")
 				} else {
 					r = concExec(ctx, e, store, levels, op, extraCh, lg)
+					if sch.Sticky > 0 {
+						task.Yield("op") // operation boundary: the burst ends here
+					}
 				}
 				lg.events = append(lg.events, e.san(fmt.Sprintf("t%d %s%s -> %s", tk, op.Kind, op.Mode, r)))
 			}
@@ -346,6 +432,7 @@ func runC12Bubble(e *Env, p *Program, res *Result) {
 	e.Events = append(e.Events, sch.Trace...)
 	res.Ops = sch.Steps
 	res.Probes["sched_steps"] = sch.Steps
+	res.Probes["holds_hit"] = sch.HoldsHit
 	res.Probes["tasks"] = nt + 1
 	switches := 0
 	prev := ""
@@ -448,6 +535,9 @@ func runC12Bubble(e *Env, p *Program, res *Result) {
 		v = e.auditHigherLevels(c)
 		if v != nil && (v.Class == "level-first-not-1" || v.Class == "level-not-contiguous" || v.Class == "compaction-timestamp") {
 			v = nil
+		}
+		if v != nil && v.Class == "level-overlap" && p.Params["level_owner"] != 1 {
+			v = nil // compactions of one level were issued concurrently (not what the daemon does)
 		}
 	}
 	if v != nil {
@@ -589,10 +679,14 @@ func concExec(ctx context.Context, e *Env, store *litestream.Store, levels lites
 		return fmt.Sprintf("ok pos=%d %v", pos.TXID, err)
 	case "ls_compact":
 		var lvl *litestream.CompactionLevel
-		if op.Level == litestream.SnapshotLevel {
+		lv := int(op.N) // CONC programs: Op.Level is the task
+		if lv == 0 {
+			lv = op.Level // programs recorded before the level had its own field
+		}
+		if lv == litestream.SnapshotLevel {
 			lvl = store.SnapshotLevel()
-		} else if op.Level >= 1 && op.Level < len(levels) {
-			lvl = levels[op.Level]
+		} else if lv >= 1 && lv < len(levels) {
+			lvl = levels[lv]
 		} else {
 			return "noop:level"
 		}
@@ -628,9 +722,9 @@ func yieldTask(site string) {
 }
 
 func (c *taskYieldClient) LTXFiles(ctx context.Context, level int, seek ltx.TXID, useMetadata bool) (ltx.FileIterator, error) {
-	yieldTask("client:list")
+	yieldTask(fmt.Sprintf("client:list:L%d", level))
 	itr, err := c.ReplicaClient.LTXFiles(ctx, level, seek, useMetadata)
-	yieldTask("client:list:done")
+	yieldTask(fmt.Sprintf("client:list:done:L%d", level))
 	return itr, err
 }
 
